@@ -552,7 +552,7 @@ def generate(ctx: Ctx) -> List[Case]:
     import multiprocessing as mp
 
     jobs = []
-    for kind, n, chunks in (("targeted", 2, 8), ("valid", 2500, 16), ("mutated", 2500, 24)):
+    for kind, n, chunks in (("targeted", 1, 8), ("valid", 2200, 16), ("mutated", 2000, 24)):
         for c in range(chunks):
             jobs.append(("thorough", ctx.rng.randrange(1 << 30), kind, n, f"{kind[0]}{c}-"))
     with mp.Pool(min(16, mp.cpu_count())) as pool:
